@@ -293,6 +293,26 @@ def factory_case(cid, which, rng):
                     if np.array_equal(H[a], H[b]):
                         okk = okk and bool(np.allclose(E[r_], 1.0 + 2.0 * (H[a][:, None] * u).sum(0), atol=1e-9))
                 case["dataok"] = bool(okk)
+            elif which == "embvmat.from_gmod":
+                # the EMBV matrix of the candidates themselves (the data of the per-individual EMBV problems): for completely inbred
+                # lines every doubled haploid is the line itself, so the expected maximum is the line's own breeding value -- for
+                # any progeny and replicate numbers, scalar or given per taxon
+                from pybrops.popgen.gmat.DensePhasedGenotypeMatrix import DensePhasedGenotypeMatrix
+                from pybrops.model.embvmat.DenseExpectedMaximumBreedingValueMatrix import DenseExpectedMaximumBreedingValueMatrix as EMBV
+                H = np.array([[rng.randrange(2) for _ in range(p)] for _ in range(n)], dtype="int8")
+                pg = DensePhasedGenotypeMatrix(np.stack([H, H]), taxa=np.array(names, dtype=object), taxa_grp=np.zeros(n, dtype="int64"),
+                                               vrnt_chrgrp=np.ones(p, dtype="int64"), vrnt_phypos=np.arange(1, p + 1, dtype="int64"),
+                                               vrnt_genpos=np.linspace(0.0, 1.0, p), vrnt_xoprob=np.array([0.5] + [0.3] * (p - 1)))
+                pg.group_vrnt()
+                form = rng.randrange(3)
+                nprog = rng.choice([1, 3]) if form == 0 else np.array([rng.randrange(1, 4) for _ in range(n)])
+                nrp = rng.choice([1, 2]) if form < 2 else np.array([rng.choice([1, 2, 4, 5]) for _ in range(n)])
+                junk = [np.full((5, T), 1e6 + k) for k in range(40)] + [np.full((k, T), -7e5) for k in (1, 2, 3, 4, 5) for _ in range(8)]
+                del junk
+                em = EMBV.from_gmod(model, pg, nprog, nrp)
+                own = 1.0 + 2.0 * (H[:, :, None] * u[None, :, :]).sum(1)
+                E = np.asarray(em.unscale() if hasattr(em, "unscale") else em.mat, dtype=float)
+                case["dataok"] = E.shape == own.shape and bool(np.allclose(E, own, atol=1e-9)) and list(em.taxa) == list(names)
             elif which in ("uc2.from_pgmat_gpmod", "uc3.from_pgmat_gpmod"):
                 # usefulness criterion of every candidate cross = expected progeny mean (parents weighted by their Mendelian shares:
                 # 1/2, 1/2 for a two-way cross; 1/2 for the recurrent parent and 1/4, 1/4 for a three-way cross) + intensity * sqrt of
@@ -409,7 +429,7 @@ def run(ctx):
         for ksel in (24, 49, 53, 98, 103):
             for _ in range(2):
                 allc.append(pafd_case(len(allc) + 1, rng, kind, ksel=ksel))
-    for which in ("ebv.from_bvmat", "gebv.from_gmat_gpmod", "ocs.from_bvmat_gmat", "mgr.from_gmat", "embv.from_pgmat_gpmod", "ohv.from_pgmat_gpmod",
+    for which in ("ebv.from_bvmat", "gebv.from_gmat_gpmod", "ocs.from_bvmat_gmat", "mgr.from_gmat", "embv.from_pgmat_gpmod", "embvmat.from_gmod", "ohv.from_pgmat_gpmod",
                   "uc2.from_pgmat_gpmod", "uc3.from_pgmat_gpmod", "ohv.from_pgmat_gpmod[large]"):
         for _ in range(reps):
             allc.append(factory_case(len(allc) + 1, which, rng))
